@@ -11,6 +11,8 @@
 -/
 import Ohsl.Props.C08
 import Mathlib.Tactic.Module
+import Mathlib.Algebra.Field.Rat
+import Mathlib.Tactic.NormNum
 
 set_option linter.unusedSectionVars false
 set_option linter.unusedVariables false
@@ -256,7 +258,7 @@ theorem stabStep_residual (b rtilde : V) (normb tol : K) (i : Nat) (s : StabStat
       subst e
       left
       rw [← hle]
-      simp only [modOps, h, map_add, map_smul, map_sub]
+      simp only [modOps, h, map_add, map_smul]
       congr 3
       abel
     rcases ite_eq_cases hs with ⟨hlt, e⟩ | ⟨_, hs⟩
@@ -312,6 +314,18 @@ theorem qmrUpd_map (i : Nat) (eta c : K) (p d : V) :
   · simp only [modOps, map_add, map_smul]
   · simp only [modOps, map_smul]
 
+/-- the QMR update of `x`, `r` keeps `r = b − A x` provided the auxiliary vector is `A d` -/
+theorem qmrUpd_residual (b : V) (i : Nat) (eta c : K) (p x r d sv : V)
+    (h : r = b - A x) (hd : sv = A d) :
+    (modOps A At dot norm2).sub r
+        (qmrUpd (modOps A At dot norm2) i eta ((modOps A At dot norm2).A p) c sv) =
+      b - A ((modOps A At dot norm2).add x (qmrUpd (modOps A At dot norm2) i eta p c d)) := by
+  subst h hd
+  show (b - A x) - qmrUpd (modOps A At dot norm2) i eta (A p) c (A d) =
+    b - A (x + qmrUpd (modOps A At dot norm2) i eta p c d)
+  rw [map_add, qmrUpd_map]
+  abel
+
 /-- one QMR iteration keeps `r = b − A x` and `s = A d`; a `done` exit that reports success has a
     true residual that passed the test -/
 theorem qmrStep_residual (b : V) (normb tol : K) (i : Nat) (s : QMRState K V)
@@ -340,15 +354,8 @@ theorem qmrStep_residual (b : V) (normb tol : K) (i : Nat) (s : QMRState K V)
     · simp at e
     simp only [Step.cont.injEq] at e
     subst e
-    simp only
-    rw [hd]
-    constructor
-    · rw [show ∀ u w : V, (modOps A At dot norm2).add u w = u + w from fun _ _ => rfl,
-        show ∀ u w : V, (modOps A At dot norm2).sub u w = u - w from fun _ _ => rfl,
-        show ∀ u : V, (modOps A At dot norm2).A u = A u from fun _ => rfl,
-        map_add, qmrUpd_map, h]
-      abel
-    · rw [show ∀ u : V, (modOps A At dot norm2).A u = A u from fun _ => rfl, qmrUpd_map]
+    exact ⟨qmrUpd_residual A At dot norm2 b i _ _ _ s.x s.r s.d s.s h hd,
+      by rw [hd]; exact (qmrUpd_map A At dot norm2 i _ _ _ s.d).symm⟩
   · intro out hs hok
     unfold qmrStep at hs
     simp only at hs
@@ -376,14 +383,8 @@ theorem qmrStep_residual (b : V) (normb tol : K) (i : Nat) (s : QMRState K V)
     simp only [Step.done.injEq] at e
     subst e
     simp only
-    rw [← hle, hd]
-    rw [show ∀ u w : V, (modOps A At dot norm2).add u w = u + w from fun _ _ => rfl,
-      show ∀ u w : V, (modOps A At dot norm2).sub u w = u - w from fun _ _ => rfl,
-      show ∀ u : V, (modOps A At dot norm2).A u = A u from fun _ => rfl,
-      show ∀ u : V, (modOps A At dot norm2).norm2 u = norm2 u from fun _ => rfl,
-      map_add, qmrUpd_map, h]
-    congr 3
-    abel
+    refine Eq.trans (congrArg (fun v => Transc.le (norm2 v / normb) tol) ?_) hle
+    exact (qmrUpd_residual A At dot norm2 b i _ _ _ s.x s.r s.d s.s h hd).symm
 
 /-- **QMR: success ⇒ the true relative residual passed the test.** -/
 theorem qmr_success_sound (b x : V) (maxIter : Nat) (tol : K) :
@@ -412,4 +413,61 @@ theorem qmr_success_sound (b x : V) (maxIter : Nat) (tol : K) :
     exact key hok
 
 end Exact
+/-! ### Non-vacuity: the success hypotheses are reachable through the loop (K = V = ℚ) -/
+section Examples
+
+/-- a `Transc ℚ` used only by the examples below (`le` is `≤`, `sqrt` is the identity, which is
+    correct at the only argument the examples evaluate it at, `sqrt 1 = 1`) -/
+@[reducible] private def transcQ : Transc ℚ where
+  sqrt := id
+  sin := id
+  cos := id
+  tan := id
+  exp := id
+  ln := id
+  sinh := id
+  cosh := id
+  fabs := id
+  atan2 := fun a _ => a
+  powf := fun a _ => a
+  fmax := fun a _ => a
+  ofNat := fun n => n
+  le := fun a b => decide (a ≤ b)
+  half := 1 / 2
+  piHalf := 0
+  eps := 0
+  snap := 0
+
+attribute [local instance] transcQ
+
+/-- BiCG succeeds in iteration 1 (not at the initial check) on `1 · x = 1`, `x₀ = 0` -/
+example : (solveBiCG (modOps (LinearMap.id : ℚ →ₗ[ℚ] ℚ) id (· * ·) id) 1 0 1 0 1).ok = true ∧
+    (solveBiCG (modOps (LinearMap.id : ℚ →ₗ[ℚ] ℚ) id (· * ·) id) 1 0 1 0 1).iters = 1 := by
+  have hle : ∀ a b : ℚ, Transc.le a b = decide (a ≤ b) := fun _ _ => rfl
+  norm_num [hle, solveBiCG, iterate, bicgStep, bicgErr, bicgDir, guardNorm, modOps]
+
+/-- BiCGSTAB, half-step exit in iteration 1 -/
+example : (solveBiCGSTAB (modOps (LinearMap.id : ℚ →ₗ[ℚ] ℚ) id (· * ·) id) 1 0 1 0).ok = true ∧
+    (solveBiCGSTAB (modOps (LinearMap.id : ℚ →ₗ[ℚ] ℚ) id (· * ·) id) 1 0 1 0).iters = 1 := by
+  have hle : ∀ a b : ℚ, Transc.le a b = decide (a ≤ b) := fun _ _ => rfl
+  norm_num [hle, solveBiCGSTAB, iterate, stabStep, stabDir, guardNorm, modOps]
+
+/-- BiCGSTAB, full-step exit (strict comparison) in iteration 1: half-step residual `1/9 > 1/10`,
+    full-step residual `9/169 < 1/10` (with a non-bilinear `dot`, which the theorems allow) -/
+example : (solveBiCGSTAB (modOps ((2 : ℚ) • LinearMap.id : ℚ →ₗ[ℚ] ℚ) id (fun u v => u * v + 1)
+      (fun u => u * u)) 1 0 1 (1 / 10)).ok = true ∧
+    (solveBiCGSTAB (modOps ((2 : ℚ) • LinearMap.id : ℚ →ₗ[ℚ] ℚ) id (fun u v => u * v + 1)
+      (fun u => u * u)) 1 0 1 (1 / 10)).x = 5 / 13 := by
+  have hle : ∀ a b : ℚ, Transc.le a b = decide (a ≤ b) := fun _ _ => rfl
+  norm_num [hle, solveBiCGSTAB, iterate, stabStep, stabStep.ScalarLt.lt, stabDir, guardNorm, modOps]
+
+/-- QMR succeeds in iteration 1 -/
+example : (solveQMR (modOps (LinearMap.id : ℚ →ₗ[ℚ] ℚ) id (· * ·) id) 1 0 1 0).ok = true ∧
+    (solveQMR (modOps (LinearMap.id : ℚ →ₗ[ℚ] ℚ) id (· * ·) id) 1 0 1 0).iters = 1 := by
+  have hle : ∀ a b : ℚ, Transc.le a b = decide (a ≤ b) := fun _ _ => rfl
+  have hsq : ∀ a : ℚ, Transc.sqrt a = a := fun _ => rfl
+  norm_num [hle, hsq, solveQMR, iterate, qmrStep, qmrDir, qmrUpd, guardNorm, modOps]
+
+end Examples
+
 end Ohsl.Props.C08
